@@ -205,8 +205,8 @@ def handle (j : Json) : R Json := do
     return Json.mkObj [
       ("model", Json.mkObj [("datainfo", exToJson jvalToJson ex), ("tree2", exToJson dinfoToJson rebuilt),
         ("datainfo2", exToJson jvalToJson ex2), ("classes", skelToJson (rebuildC c).skel)]),
-      ("wf", .bool t.erase.wfB),
-      ("judge", jstrs (judgeDerived (← derivedOfJson impl)))]
+      ("wf", .bool t.erase.wfB), ("aligned", .bool t.exportableB),
+      ("judge", jstrs (judgeRebuilt t (← derivedOfJson impl)))]
   | "get" =>
     let d ← jvalOfJson (← fld j "json")
     return Json.mkObj [("model", exToJson dinfoToJson (getDatatype consts d))]
@@ -223,8 +223,8 @@ def handle (j : Json) : R Json := do
     return Json.mkObj [
       ("model", Json.mkObj [("tree2", exToJson dinfoToJson c), ("shared", jstrs (Heap.sharedKinds consts t)),
         ("classes", skelToJson (copyC ct).skel)]),
-      ("wf", .bool t.erase.wfB),
-      ("judge", jstrs (judgeDerived (← derivedOfJson impl) ++ judgeMutation m))]
+      ("wf", .bool t.erase.wfB), ("aligned", .bool t.exportableB),
+      ("judge", jstrs (judgeRebuilt t (← derivedOfJson impl) ++ judgeMutation m))]
   | "compat" =>
     let a ← ctypeOfJson (← fld j "a")
     let b ← ctypeOfJson (← fld j "b")
